@@ -175,7 +175,9 @@ func BuildInChild(b BuildCase) (res BuildResult) {
 			t, err = scriggo.BuildTemplate(rec, b.Entry, nil)
 			if err == nil {
 				stage = "disasm"
-				t.Disassemble(-1)
+				for _, n := range []int{-1, 0, 1, 2, 3, 5, 8, 10, 13} { // the limit is in runes: texts are cut
+					t.Disassemble(n)
+				}
 			}
 		}
 		switch e := err.(type) {
